@@ -10,7 +10,7 @@ C11 — property theorems.
     negation witness, by `decide`; `eq_old_wrong_on_vectors` is the `return false` half.
 * `HashRespectsEq c`: values with equal unfoldings hash alike: `hash_respects_eq` (sound `c`),
   `not_hash_respects_eq_old_*` (the three legacy defects K11c, K11d, K11e).
-* `eq_refl`, `keys_interchangeable` (a key is found iff it equals the stored key's unfolding).
+* `eq_refl`; `eq_symm`, `eq_trans` (values without hash maps / sets); `keys_interchangeable` (a key is found iff it equals the stored key's unfolding).
 * collection laws for all inputs.
 Guards: `WF` (acyclic: definitions mention earlier nodes only), `NoNaN` (a NaN is not `equal?` to
 itself — documented semantics, while an object holding one is identical to itself), `KeysDistinct`
@@ -18,6 +18,7 @@ itself — documented semantics, while an object holding one is identical to its
 -/
 import SteelVerif.C11.LemmasLoop
 import SteelVerif.C11.LemmasColl
+import SteelVerif.C11.LemmasEquiv
 namespace SteelVerif.C11
 
 /-! ## equal? is structural -/
@@ -81,6 +82,25 @@ theorem eq_refl (c : Cfg) (hc : c.sound = true) (g : Graph) (a : Nat) (hwf : WF 
     (hkd : KeysDistinct g) (ha : a < g.length) : eqImpl c g a a = true := by
   rw [eq_structural c hc g a a hwf hn hkd ha]
   exact spec_refl hwf hn hkd a ha
+
+/-- equal? is symmetric on values without hash maps / hash sets (`NoHashed`: the part of "equivalence
+    relation" that is proved; symmetry through hash maps needs a counting argument that is not done). -/
+theorem eq_symm (c : Cfg) (hc : c.sound = true) (g : Graph) (a b : Nat) (hwf : WF g) (hn : NoNaN g)
+    (hkd : KeysDistinct g) (hh : NoHashed g) (ha : a < g.length) (hb : b < g.length) :
+    eqImpl c g a b = eqImpl c g b a := by
+  rw [eq_structural c hc g a b hwf hn hkd ha, eq_structural c hc g b a hwf hn hkd hb]
+  exact spec_symm hwf hh a b ha hb
+
+/-- equal? is transitive on values without hash maps / hash sets -/
+theorem eq_trans (c : Cfg) (hc : c.sound = true) (g : Graph) (a b d : Nat) (hwf : WF g) (hn : NoNaN g)
+    (hkd : KeysDistinct g) (hh : NoHashed g) (ha : a < g.length) (hb : b < g.length)
+    (h1 : eqImpl c g a b = true) (h2 : eqImpl c g b d = true) : eqImpl c g a d = true := by
+  rw [eq_structural c hc g a b hwf hn hkd ha] at h1
+  rw [eq_structural c hc g b d hwf hn hkd hb] at h2
+  rw [eq_structural c hc g a d hwf hn hkd ha]
+  exact spec_trans hwf hh a b d ha hb h1 h2
+
+example : NoHashed witnessD10 ∧ NoHashed witnessVec := by decide
 
 /-! ## hashing agrees with equality -/
 
